@@ -82,9 +82,6 @@ def splitAtSub (sep : Bytes) : Bytes → Option (Bytes × Bytes)
       | none => none
       | some (a, b) => some (c :: a, b)
 
-def hexDigitVal (c : UInt8) : Nat :=
-  if isDigit c then c.toNat - 48 else if 97 ≤ c && c ≤ 102 then c.toNat - 87 else c.toNat - 55
-
 /-- `strconv.ParseUint(s, 16, 64)` -/
 def parseHex64 (s : Bytes) : Option Nat :=
   if s.isEmpty || !s.all isHexChar then none
